@@ -287,6 +287,35 @@ def k2_values(a: List[Optional[int]], b: List[Optional[int]], fa: List[int], fb:
     return (r.failures == 0) == want
 
 
+def k2_precision_is_per_call(fa: List[int], fb: List[int], p1: int, p2: int) -> bool:
+    """
+    pre: len(fa) == 1 and len(fb) == 1 and all(0 <= i < len(FLOATS) for i in fa + fb)
+    pre: 0 <= p1 < 4 and 0 <= p2 < 4
+    post: __return__
+    """
+    # one comparison object (a ReferenceTest keeps one for all its assertions): the precision given to one call
+    # does not carry over to the next
+    fva = [FLOATS[_c(i, len(FLOATS))] for i in fa]
+    fvb = [FLOATS[_c(i, len(FLOATS))] for i in fb]
+    saved = (cp.same_structure_dataframe_diffs, cp.replace_cats)
+    cp.same_structure_dataframe_diffs = _diffs_stub
+    cp.replace_cats = lambda d: d
+    try:
+        pc = PandasComparison(verbose=False, tmp_dir='/nonexistent')
+        out = []
+        for pr in (p1, p2):
+            prec = [None, 0, 1, 3][_c(pr, 4)]
+            df = CFrame(['x'], [CSeries(fva, DTYPES[1])])
+            ref = CFrame(['x'], [CSeries(fvb, DTYPES[1])])
+            r = pc.check_dataframe(df, ref, create_temporaries=False, precision=prec)
+            p = 6 if prec is None else prec
+            want = all(round(x, p) == round(y, p) for x, y in zip(fva, fvb))
+            out.append((r.failures == 0) == want)
+    finally:
+        cp.same_structure_dataframe_diffs, cp.replace_cats = saved
+    return all(out)
+
+
 def k2_rows_sort_condition(a: List[int], b: List[int], use_sort: bool, use_cond: bool, sort_missing: bool) -> bool:
     """
     pre: len(a) <= P['rows'] and len(b) <= P['rows']
@@ -349,6 +378,10 @@ def k4_option_flag(flag: int, sub: List[bool]) -> bool:
 def _obs():
     obs = []
     Q, T = 'quick', 'thorough'
+    obs.append(Ob('K2', 'k2_precision_is_per_call', 'two successive comparisons on ONE comparison object: each is decided '
+                  'by its own precision argument (default 6), never by the previous call\'s',
+                  'one row of floats from a menu of %d; precision None / 0 / 1 / 3 for each call' % len(FLOATS),
+                  timeout=400, stubs=['CFrame', 'same_structure_dataframe_diffs -> cell counter']))
     obs.append(Ob('K1', 'k1_data_columns', 'a reference column the actual frame lacks (a renamed column) fails every '
                   'kind of check it is selected for, the value check included, as a reported difference and never as '
                   'an internal error', 'actual and reference: 1..2 columns over 3 names (symbolic indexes), no rows; '
